@@ -7,6 +7,17 @@
 #include "common/tissuegen.hpp"
 #include "common/meshgen.hpp"
 
+#include "contact_face_face_via_coupling.hpp"
+#include "contact_node_face_via_spring.hpp"
+#include "contact_node_node_via_coupling.hpp"
+#if CONTACT_MODEL_INDEX == 0
+typedef contact_node_face_via_spring dbg_model_t;
+#elif CONTACT_MODEL_INDEX == 1
+typedef contact_node_node_via_coupling dbg_model_t;
+#else
+typedef contact_face_face_via_coupling dbg_model_t;
+#endif
+
 using namespace vg;
 
 struct Case {
@@ -36,6 +47,16 @@ static rc::Gen<Case> genCase() {
     return rc::gen::exec([]() {
         Case c;
         c.tissue = *tg::genTissue(4, 1, *irange(0, 1), false);
+        // every cell is turned about its own centre: identical, axis-aligned icospheres make exact ties (a node normal exactly perpendicular
+        // to a face normal of the neighbour sits on the threshold of the contact pre-filter, and rounding decides)
+        for (auto& cd : c.tissue.cells) {
+            V3 g = vg::vertex_mean(cd.mesh);
+            vg::Quat q = vg::Quat::from(*uniform(-1, 1), *uniform(-1, 1), *uniform(-1, 1), *uniform(-1, 1));
+            for (size_t i = 0; i < cd.mesh.nn(); i++) {
+                V3 r = q.rot(cd.mesh.p((unsigned)i) - g) + g;
+                cd.mesh.xyz[3 * i] = (double)r.x, cd.mesh.xyz[3 * i + 1] = (double)r.y, cd.mesh.xyz[3 * i + 2] = (double)r.z;
+            }
+        }
         // the reference tissue sits a few sizes away from the origin so that "across the origin" is a real class
         const double s = 3.0;
         double base[3] = {*uniform(2, 4) * s, *uniform(-1, 1) * s, *uniform(-1, 1) * s};
@@ -118,6 +139,8 @@ static std::string run(const Case& k, vf::Ctx& ctx) {
         dirs.push_back(dir);
         global_simulation_parameters sp = sk::basic_params(dir, t.edge);
         sp.time_step_ = k.dt;
+        if (getenv("VERIF_C14_NOCONTACT")) sp.contact_cutoff_adhesion_ = sp.contact_cutoff_repulsion_ = 1e-9 * t.edge;
+        if (getenv("VERIF_C14_NOREFINE")) sp.min_edge_len_ = 1e-3 * t.edge;
         return std::unique_ptr<sk::test_solver>(new sk::test_solver(sp, b.cells, 1));
     };
     std::unique_ptr<sk::test_solver> A, B, N1, N2;
@@ -172,13 +195,80 @@ static std::string run(const Case& k, vf::Ctx& ctx) {
         }
         return false;
     };
+    // decision quantities of the contact phase close to their thresholds: node-face distance vs the cut-offs, node normal . face normal vs
+    // cos 90 / cos 45 (pre-filters of the coupling models), node curvature vs the coupling limit
+    auto contact_tie = [&](sk::test_solver& X) -> bool {
+        const double ca = X.params().contact_cutoff_adhesion_, cr = X.params().contact_cutoff_repulsion_, cm = std::max(ca, cr);
+        static const double C90 = std::cos(90 * M_PI / 180.0), C45 = std::cos(45 * M_PI / 180.0);
+        auto& cl = X.cells();
+        for (size_t c1 = 0; c1 < cl.size(); c1++) {
+            const double maxc = cl[c1]->get_cell_type()->surface_coupling_max_curvature_;
+            for (auto& n : cell_tester::nodes(*cl[c1])) {
+                if (!n.is_used()) continue;
+                if (std::isfinite(maxc) && std::fabs(n.get_curvature() - maxc) < 1e-9 * std::fabs(maxc)) return true;
+                const V3 p = ct::to_v3(n.pos());
+                for (size_t c2 = 0; c2 < cl.size(); c2++) {
+                    if (c2 == c1) continue;
+                    auto& n2 = cell_tester::nodes(*cl[c2]);
+                    for (auto& f : cell_tester::faces(*cl[c2])) {
+                        if (!f.is_used()) continue;
+                        auto ids = cell_tester::face_ids(f);
+                        V3 a = ct::to_v3(n2[ids[0]].pos());
+                        if ((a - p).norm() > 4 * cm + 3 * X.params().min_edge_len_ * 3) continue;
+                        auto q = vg::closest_on_triangle(p, a, ct::to_v3(n2[ids[1]].pos()), ct::to_v3(n2[ids[2]].pos()));
+                        const ld d = sqrtl(q.d2);
+                        if (d > 1.5 * cm) continue;
+                        if (fabsl(d - ca) < 1e-9 * ca || fabsl(d - cr) < 1e-9 * cr) return true;
+                        // (before the first force computation all node normals are exactly zero: every dot product is exactly 0 in every
+                        // placement, a deterministic decision and no tie)
+                        if (n.get_normal().squared_norm() == 0) continue;
+                        const double dot = n.get_normal().dot(f.get_normal());
+                        if (std::fabs(dot - C90) < 1e-9 || std::fabs(dot - C45) < 1e-9) return true;
+                        for (unsigned id : ids) {
+                            if (n2[id].get_normal().squared_norm() == 0) continue;
+                            const double dn = n.get_normal().dot(n2[id].get_normal());
+                            if (std::fabs(dn - C45) < 1e-9 || std::fabs(dn - C90) < 1e-9) return true;
+                        }
+                    }
+                }
+            }
+        }
+        return false;
+    };
     long remesh_ops_seen = 0;
     bool any_contact = false;
     ld worst_rel = 0;
     for (int it = 0; it < k.iterations; it++) {
         std::vector<size_t> faces_before;
         for (auto& c : A->cells()) faces_before.push_back(c->get_nb_of_faces());
-        const bool tie_before = near_tie(*A);
+        const bool tie_before = near_tie(*A) || contact_tie(*A);
+        if (getenv("VERIF_DEBUG")) {
+            // contact forces of the two placements on clones of the current states
+            std::vector<cell_ptr> ca = tg::clone(A->cells(), &scope), cb = tg::clone(B->cells(), &scope);
+            for (auto* v : {&ca, &cb})
+                for (auto& c : *v) {
+                    c->update_all_face_normals_and_areas();
+                    for (auto& n : cell_tester::nodes(*c)) cell_tester::force(n).reset();
+                }
+            dbg_model_t ma(A->params()), mb(B->params());
+            ma.run(ca), mb.run(cb);
+            ld worst = 0, fmax = 0;
+            size_t wc = 0, wn = 0;
+            for (size_t c = 0; c < ca.size(); c++) {
+                auto &x = cell_tester::nodes(*ca[c]), &y = cell_tester::nodes(*cb[c]);
+                for (size_t i = 0; i < x.size(); i++) {
+                    ld d = (ct::to_v3(x[i].force()) - ct::to_v3(y[i].force())).norm();
+                    fmax = std::max(fmax, ct::to_v3(x[i].force()).norm());
+                    if (d > worst) worst = d, wc = c, wn = i;
+                }
+            }
+            fprintf(stderr, "before iteration %d: max contact force %Lg, largest difference between placements %Lg (cell %zu node %zu)\n", it, fmax, worst, wc, wn);
+            if (worst > 1e-9 * fmax) {
+                auto &x = cell_tester::nodes(*ca[wc])[wn], &y = cell_tester::nodes(*cb[wc])[wn];
+                fprintf(stderr, "   force A (%g,%g,%g) B (%g,%g,%g) pos A (%.17g,%.17g,%.17g)\n", x.force().dx(), x.force().dy(), x.force().dz(), y.force().dx(), y.force().dy(), y.force().dz(),
+                        x.pos().dx(), x.pos().dy(), x.pos().dz());
+            }
+        }
         try {
             A->run_iteration();
             B->run_iteration();
@@ -206,13 +296,17 @@ static std::string run(const Case& k, vf::Ctx& ctx) {
         }
         // continuous comparison with the noise-calibrated tolerance
         ld noise = 0, dev = 0, noiseV = 0, devV = 0, noiseP = 0, devP = 0;
+        size_t worst_cell = 0, worst_node = 0;
         for (size_t c = 0; c < A->cells().size(); c++) {
             auto &na = cell_tester::nodes(*A->cells()[c]), &nb = cell_tester::nodes(*B->cells()[c]);
             auto &n1 = cell_tester::nodes(*N1->cells()[c]), &n2 = cell_tester::nodes(*N2->cells()[c]);
             for (size_t i = 0; i < na.size(); i++) {
                 if (!na[i].is_used()) continue;
                 V3 a = ct::to_v3(na[i].pos());
-                dev = std::max(dev, (ct::to_v3(nb[i].pos()) - a - T).norm());
+                {
+                    const ld dd = (ct::to_v3(nb[i].pos()) - a - T).norm();
+                    if (dd > dev) dev = dd, worst_cell = c, worst_node = i;
+                }
                 noise = std::max(noise, std::max((ct::to_v3(n1[i].pos()) - a).norm(), (ct::to_v3(n2[i].pos()) - a).norm()));
 #if CONTACT_MODEL_INDEX != 0
                 if (na[i].is_coupled()) any_contact = true;
@@ -224,6 +318,11 @@ static std::string run(const Case& k, vf::Ctx& ctx) {
             devP = std::max(devP, fabsl(B->cells()[c]->get_pressure() - Pa));
             noiseP = std::max(noiseP, std::max(fabsl(N1->cells()[c]->get_pressure() - Pa), fabsl(N2->cells()[c]->get_pressure() - Pa)));
         }
+        if (getenv("VERIF_DEBUG")) {
+            fprintf(stderr, "after iteration %d: dev %Lg noise %Lg devV %Lg devP %Lg (worst cell %zu node %zu); classes:", it, dev, noise, devV, devP, worst_cell, worst_node);
+            for (auto& c : A->cells()) fprintf(stderr, " %d", (int)c->get_cell_type_id());
+            fprintf(stderr, "\n");
+        }
         const ld D = T.norm() + 4 * s;
         ld tol = std::max<ld>(1e-12 * s, 1e4 * noise);
         if (tol > 1e-5 * s) {
@@ -232,9 +331,63 @@ static std::string run(const Case& k, vf::Ctx& ctx) {
         }
         // the translated run also pays the conditioning of the origin-anchored volume: relative error F eps (D/s)^3 on V, hence K * that on P,
         // integrated over the iterations done so far
-        const ld relV = 64 * 80 * EPS * powl(1 + D / s, 3);
+        const ld relV = 512 * 80 * EPS * powl(1 + D / s, 3);  // error model of the origin-anchored volume with a safety factor: it gives the expected size, not a bound
         tol = std::max(tol, relV * s * (it + 1));
         worst_rel = std::max(worst_rel, dev / s);
+        if (dev > tol && getenv("VERIF_DEBUG")) {
+            auto& na = cell_tester::nodes(*A->cells()[worst_cell]);
+            auto& nb2 = cell_tester::nodes(*B->cells()[worst_cell]);
+            fprintf(stderr, "worst: cell %zu (class %d) node %zu\n", worst_cell, (int)A->cells()[worst_cell]->get_cell_type_id(), worst_node);
+            {
+                auto& n1x = cell_tester::nodes(*N1->cells()[worst_cell]);
+                auto pa = na[worst_node].pos(), pb = nb2[worst_node].pos(), pn = n1x[worst_node].pos();
+                fprintf(stderr, "   A   (%.17g, %.17g, %.17g)\n   B-T (%.17g, %.17g, %.17g)\n   N1  (%.17g, %.17g, %.17g)\n", pa.dx(), pa.dy(), pa.dz(), pb.dx() - k.tr[0], pb.dy() - k.tr[1], pb.dz() - k.tr[2],
+                        pn.dx(), pn.dy(), pn.dz());
+                fprintf(stderr, "   faces of that cell: A %zu B %zu, node slots %zu\n", A->cells()[worst_cell]->get_nb_of_faces(), B->cells()[worst_cell]->get_nb_of_faces(), na.size());
+                size_t nbad = 0;
+                for (size_t i = 0; i < na.size(); i++)
+                    if (na[i].is_used() && (ct::to_v3(nb2[i].pos()) - ct::to_v3(na[i].pos()) - T).norm() > 1e-12) nbad++;
+                fprintf(stderr, "   nodes of that cell deviating by more than 1e-12: %zu of %zu\n", nbad, na.size());
+                // candidate faces of the other cells around that node: distance and the decision quantities of the contact pre-filter
+                const double cut = std::max(A->params().contact_cutoff_adhesion_, A->params().contact_cutoff_repulsion_);
+                for (size_t c2 = 0; c2 < A->cells().size(); c2++) {
+                    if (c2 == worst_cell) continue;
+                    for (auto& f : cell_tester::faces(*A->cells()[c2])) {
+                        if (!f.is_used()) continue;
+                        auto ids = cell_tester::face_ids(f);
+                        auto& n2 = cell_tester::nodes(*A->cells()[c2]);
+                        auto cl = vg::closest_on_triangle(ct::to_v3(na[worst_node].pos()), ct::to_v3(n2[ids[0]].pos()), ct::to_v3(n2[ids[1]].pos()), ct::to_v3(n2[ids[2]].pos()));
+                        if (sqrtl(cl.d2) < 1.5 * cut)
+                            fprintf(stderr, "   face of cell %zu at distance %.17Lg (cut-off %.17g): node normal . face normal = %.3e (A) %.3e (B), curvature %.6g\n", c2, sqrtl(cl.d2), cut,
+                                    na[worst_node].get_normal().dot(f.get_normal()), nb2[worst_node].get_normal().dot(f.get_normal()), na[worst_node].get_curvature());
+                    }
+                }
+            }
+#if CONTACT_MODEL_INDEX == 1
+            for (size_t c = 0; c < A->cells().size(); c++) {
+                auto &x = cell_tester::nodes(*A->cells()[c]), &y = cell_tester::nodes(*B->cells()[c]);
+                size_t ndiff = 0, ncoup = 0;
+                for (size_t i = 0; i < x.size(); i++) {
+                    if (!x[i].is_used()) continue;
+                    ncoup += x[i].is_coupled();
+                    if (x[i].is_coupled() != y[i].is_coupled() || (x[i].is_coupled() && x[i].get_coupled_node() != y[i].get_coupled_node())) {
+                        if (ndiff < 5) fprintf(stderr, "  cell %zu node %zu: coupled A=%d B=%d", c, i, (int)x[i].is_coupled(), (int)y[i].is_coupled());
+                        if (ndiff < 5 && x[i].is_coupled()) fprintf(stderr, " A->(%u,%u)", x[i].get_coupled_node().first, x[i].get_coupled_node().second);
+                        if (ndiff < 5 && y[i].is_coupled()) fprintf(stderr, " B->(%u,%u)", y[i].get_coupled_node().first, y[i].get_coupled_node().second);
+                        if (ndiff < 5) fprintf(stderr, "\n");
+                        ndiff++;
+                    }
+                }
+                fprintf(stderr, "  cell %zu: %zu coupled nodes, %zu coupled differently in the translated run\n", c, ncoup, ndiff);
+            }
+            (void)na, (void)nb2;
+#endif
+        }
+        if (dev > tol && tie_before) {
+            // a decision of this iteration sat on its threshold in the reference state: which side rounding pushes it to is not constrained
+            ctx.count("tie_inconclusive_threshold");
+            return "";
+        }
         if (dev > tol) {
             os << "iteration " << it << ": a node of the translated run is " << (double)dev << " away from the translated position of the reference node (tolerance " << (double)tol
                << ", response to rounding noise " << (double)noise << ", translation class " << TC[k.tclass] << ")";
